@@ -159,6 +159,14 @@ def canon (m : String) : String :=
   | (pre, some _) => if pre == "failed" || pre == "aborted" then "failed" else m
   | (_, none) => m
 
+/-- `_poll_task_job_callback`: the message a poll result stands for.  The poll op carries the job's state as
+found by jobs-poll: `submitted`, `started`, `succeeded`, `failed` (error trap ran), `failed/<SIGNAL>`
+(killed by a signal, trap ran), `submission failed`, or `killed` — the job had started, is gone from the job
+runner and left neither an exit time nor a run status (died without its error trap: SIGKILL, node lost) —
+which is reported as `failed`; anything else is a message line of the job status file, passed on as it is. -/
+def pollMessage (state : String) : String :=
+  if state == "killed" then "failed" else state
+
 /-- a job vacation message `vacated/<SIGNAL>` (the batch system pre-empted the job and will run it again) -/
 def isVacated (m : String) : Bool :=
   match splitRunSignal m with
